@@ -21,6 +21,7 @@ performed on every path, for every input; the enumeration looks for escapes.
 import Hts.Lemmas.BgzfBytes
 import Hts.Lemmas.BgzfBytesVerify
 import Hts.Lemmas.BgzfBytesBam
+import Hts.Lemmas.BgzfBytesSubst
 namespace Hts.Props.C10
 open Hts.Model.BgzfBytes Hts.Lemmas.BgzfBytes
 
@@ -121,18 +122,18 @@ succeeds, then `readMember` framed a member there and the gzip reader reached th
 its body: the payload is what the deflate decoder produced, and the eight bytes after the deflate
 data are its CRC-32 and its length (for every gzip member inside the block, as compress/gzip's
 multistream mode allows several).  There is no other path on which a block yields data. -/
-theorem data_only_after_verification (q : Quirks) (c : Codec) (s payload rest : Bytes)
-    (h : readBlock q c s = .ok (payload, rest)) :
+theorem data_only_after_verification (q : Quirks) (hq : q.dummyReadCountIgnored = false) (c : Codec)
+    (s payload rest : Bytes) (h : readBlock q c s = .ok (payload, rest)) :
     ∃ f, readMember q c s = .ok f ∧ f.rest = rest ∧ Verified c f.body payload ∧ payload.length ≤ MaxBlockSize :=
-  readBlock_ok_verified q c s payload rest h
+  readBlock_ok_verified q hq c s payload rest h
 
 /-- A single-member body that was accepted: CRC-32 and ISIZE of the decoded data match the trailer. -/
-theorem verified_trailer_matches (c : Codec) (buf data : Bytes) (h : gzBody c buf = .ok data) :
+theorem verified_trailer_matches (c : Codec) (buf data : Bytes) (ne : Bool) (h : gzBody c buf = .ok (data, ne)) :
     ∃ payload used, c.inflate buf = .ok payload used ∧ 8 ≤ (buf.drop used).length ∧
       leNat ((buf.drop used).take 4) = c.crc32 payload ∧
       leNat (((buf.drop used).drop 4).take 4) = payload.length % 4294967296 ∧
       payload <+: data := by
-  cases gzBody_ok_verified c buf data h with
+  cases gzBody_ok_verified c buf data ne h with
   | single tr _ => exact ⟨_, _, tr.inflated, tr.present, tr.crc, tr.isize, List.prefix_refl _⟩
   | multi tr _ _ => exact ⟨_, _, tr.inflated, tr.present, tr.crc, tr.isize, List.prefix_append _ _⟩
 
@@ -148,9 +149,9 @@ theorem framed_member_is_bsize_bytes (q : Quirks) (c : Codec) (s : Bytes) (f : F
 /-- **all_data_verified.**  For EVERY byte string: everything `readAll` returns is the concatenation
 of the payloads of members that were framed back to back from the start of the input and each passed
 verification; the reader stopped with the error of the first block that did not. -/
-theorem all_data_verified (q : Quirks) (c : Codec) (s : Bytes) :
+theorem all_data_verified (q : Quirks) (hq : q.dummyReadCountIgnored = false) (c : Codec) (s : Bytes) :
     ∃ blocks, Delivered q c s blocks (readAll q c s).2 ∧ (readAll q c s).1 = (blocks.map (·.2)).flatten :=
-  readAll_delivered q c s
+  readAll_delivered q hq c s
 
 /-- The repaired reader reports the clean end of a block read only on EMPTY input: no header field,
 BSIZE value or body content of any byte string makes `readBlock` return `io.EOF` (on the unchanged
@@ -177,6 +178,86 @@ theorem readAll_unfolds (q : Quirks) (c : Codec) (s : Bytes) :
       | .error e => ([], e)
       | .ok (payload, rest) => (payload ++ (readAll q c rest).1, (readAll q c rest).2) :=
   readAll_eq q c s
+
+/-! ## Corruption: one altered byte of a member's header or trailer (second sentence of the property)
+
+The altered member `m` has the default 18-byte header (`Canon`), stands after any well-framed members
+`pre` and before ANY bytes `t` (the rest of the stream, intact or not).  `stream_position_splits` says
+that every position of a stream is such a place.  For each byte role the outcome is the one stated —
+an error that is not the clean end after exactly the data of `pre`, or the very result of the intact
+stream.  Where the outcome depends on what DEFLATE or CRC-32 make of shifted/altered bytes there is no
+theorem (FLG with FNAME/FCOMMENT/FHCRC set, XLEN ≥ 6, BSIZE enlarged, every byte of the deflate
+data): those positions are covered by the exhaustive enumeration only. -/
+
+/-- every byte of a stream lies in exactly one member, and altering it alters only that member's bytes -/
+theorem stream_position_splits (c : Codec) (ms : List Member) (hwf : ∀ m ∈ ms, m.WellFramed c) (p : Nat)
+    (hp : p < (stream ms).length) (v : UInt8) :
+    ∃ pre m post o, ms = pre ++ m :: post ∧ o < m.bytes.length ∧ p = (stream pre).length + o ∧
+      (stream ms).set p v = stream pre ++ (m.bytes.set o v ++ stream post) :=
+  stream_set_split hwf p hp v
+
+/-- ID1, ID2, CM (offsets 0–2) altered: the data before, then `gzip.ErrHeader`. -/
+theorem subst_magic_is_error (c : Codec) (pre : List Member) (hpre : ∀ m ∈ pre, m.WellFramed c) (m : Member)
+    (m0 m1 m2 m3 xfl os : UInt8) (hc : Canon m m0 m1 m2 m3 xfl os) (o : Nat) (ho : o < 3) (v : UInt8)
+    (hv : m.bytes[o]? ≠ some v) (t : Bytes) :
+    readAll .repaired c (stream pre ++ (m.bytes.set o v ++ t)) = (data pre, .gzHeader) :=
+  readAll_after_prefix_error .repaired c hpre (subst_magic .repaired c hc o ho v hv t)
+
+/-- MTIME, XFL, OS (offsets 4–9) altered to anything: exactly the result of the unaltered stream. -/
+theorem subst_mtime_xfl_os_is_identical (c : Codec) (pre : List Member) (hpre : ∀ m ∈ pre, m.WellFramed c)
+    (m : Member) (hm : m.FramedOk c) (m0 m1 m2 m3 xfl os : UInt8) (hc : Canon m m0 m1 m2 m3 xfl os)
+    (o : Nat) (h4 : 4 ≤ o) (h9 : o ≤ 9) (v : UInt8) (t : Bytes) :
+    readAll .repaired c (stream pre ++ (m.bytes.set o v ++ t)) = readAll .repaired c (stream pre ++ (m.bytes ++ t)) :=
+  readAll_after_prefix_same .repaired c hpre (subst_mtime_xfl_os .repaired c hm hc o h4 h9 v t)
+
+/-- FLG (offset 3) altered in FTEXT or a reserved bit only: exactly the result of the unaltered stream. -/
+theorem subst_flg_plain_is_identical (c : Codec) (pre : List Member) (hpre : ∀ m ∈ pre, m.WellFramed c)
+    (m : Member) (hm : m.FramedOk c) (m0 m1 m2 m3 xfl os : UInt8) (hc : Canon m m0 m1 m2 m3 xfl os)
+    (v : UInt8) (hf : FlgPlain v) (t : Bytes) :
+    readAll .repaired c (stream pre ++ (m.bytes.set 3 v ++ t)) = readAll .repaired c (stream pre ++ (m.bytes ++ t)) :=
+  readAll_after_prefix_same .repaired c hpre (subst_flg_plain .repaired c hm hc v hf t)
+
+/-- FLG altered so that FEXTRA is clear (FNAME, FCOMMENT, FHCRC clear): the data before, then `ErrNoBlockSize`. -/
+theorem subst_flg_no_extra_is_error (c : Codec) (pre : List Member) (hpre : ∀ m ∈ pre, m.WellFramed c)
+    (m : Member) (m0 m1 m2 m3 xfl os : UInt8) (hc : Canon m m0 m1 m2 m3 xfl os) (v : UInt8)
+    (h4 : flagSet v 4 = false) (h8 : flagSet v 8 = false) (h16 : flagSet v 16 = false) (h2 : flagSet v 2 = false)
+    (t : Bytes) :
+    readAll .repaired c (stream pre ++ (m.bytes.set 3 v ++ t)) = (data pre, .noBlockSize) :=
+  readAll_after_prefix_error .repaired c hpre (subst_flg_no_extra .repaired c hc v h4 h8 h16 h2 t)
+
+/-- XLEN low byte (offset 10) set below 6: the data before, then `ErrNoBlockSize`. -/
+theorem subst_xlen_small_is_error (c : Codec) (pre : List Member) (hpre : ∀ m ∈ pre, m.WellFramed c)
+    (m : Member) (m0 m1 m2 m3 xfl os : UInt8) (hc : Canon m m0 m1 m2 m3 xfl os) (n : Nat) (hn : n < 6) (t : Bytes) :
+    readAll .repaired c (stream pre ++ (m.bytes.set 10 (UInt8.ofNat n) ++ t)) = (data pre, .noBlockSize) :=
+  readAll_after_prefix_error .repaired c hpre (subst_xlen_small .repaired c hc n hn t)
+
+/-- SI1, SI2, SLEN (offsets 12–15) altered: the data before, then `ErrNoBlockSize`. -/
+theorem subst_subfield_is_error (c : Codec) (pre : List Member) (hpre : ∀ m ∈ pre, m.WellFramed c)
+    (m : Member) (m0 m1 m2 m3 xfl os : UInt8) (hc : Canon m m0 m1 m2 m3 xfl os) (o : Nat) (h12 : 12 ≤ o)
+    (h15 : o ≤ 15) (v : UInt8) (hv : m.bytes[o]? ≠ some v) (t : Bytes) :
+    readAll .repaired c (stream pre ++ (m.bytes.set o v ++ t)) = (data pre, .noBlockSize) :=
+  readAll_after_prefix_error .repaired c hpre (subst_subfield .repaired c hc o h12 h15 v hv t)
+
+/-- BSIZE (offsets 16, 17) replaced by bytes announcing FEWER bytes than the member has: the data before,
+then an error that is not the clean end.  Codec assumption: `PrefixDetermined`. -/
+theorem subst_bsize_smaller_is_error (c : Codec) (hpd : PrefixDetermined c) (pre : List Member)
+    (hpre : ∀ m ∈ pre, m.WellFramed c) (m : Member) (hm : m.FramedOk c) (m0 m1 m2 m3 xfl os : UInt8)
+    (hc : Canon m m0 m1 m2 m3 xfl os) (b0 b1 : UInt8) (hlt : b0.toNat + 256 * b1.toNat + 1 < m.size) (t : Bytes) :
+    ∃ e, e ≠ .eof ∧
+      readAll .repaired c (stream pre ++ (hdr18 4 m0 m1 m2 m3 xfl os b0 b1 ++ (m.body ++ t))) = (data pre, e) := by
+  obtain ⟨e, he, hr⟩ := subst_bsize_smaller c hpd hm hc b0 b1 hlt t
+  exact ⟨e, he, readAll_after_prefix_error .repaired c hpre hr⟩
+
+/-- Any byte of CRC-32 or ISIZE altered (any header layout): the data before, then an error that is not
+the clean end (`gzip.ErrChecksum`, or `io.ErrShortBuffer` if the payload is oversize).  Codec assumption:
+`PrefixDetermined`. -/
+theorem subst_trailer_is_error (c : Codec) (hpd : PrefixDetermined c) (pre : List Member)
+    (hpre : ∀ m ∈ pre, m.WellFramed c) (m : Member) (hm : m.FramedOk c) (j : Nat) (hj : j < 8) (v : UInt8)
+    (hv : (m.crc ++ m.isize)[j]? ≠ some v) (t : Bytes) :
+    ∃ e, e ≠ .eof ∧
+      readAll .repaired c (stream pre ++ (m.header ++ ((m.cdata ++ (m.crc ++ m.isize).set j v) ++ t))) = (data pre, e) := by
+  obtain ⟨e, he, hr⟩ := subst_trailer_byte .repaired c hpd hm j hj v hv t
+  exact ⟨e, he, readAll_after_prefix_error .repaired c hpre hr⟩
 
 /-! ## Truncation: BAM -/
 
@@ -237,23 +318,21 @@ theorem bam_header_wellformed_is_hdrOk (sem : BamSem) (h : Hdr) (hw : h.WellForm
 
 /-! ## The three defects of the unchanged tree, on the same model (`Quirks.unrepaired`) -/
 
-/-- Defect C10-1 (DESIGN §6 #31): on the unchanged tree a cut exactly 18 bytes into ANY member —
-right after its gzip header — is a clean end. -/
+/-- Defect C10-1 (DESIGN §6 #31): on the unchanged tree a cut right after the gzip header of ANY
+member (18 bytes into it for the default header) is a clean end. -/
 theorem unrepaired_clean_eof_inside_member (c : Codec) (m : Member) (hm : m.WellFramed c) :
-    readAll .unrepaired c (m.bytes.take 18) = ([], .eof) := by
-  have hb := Member.body_length hm
-  have e : m.bytes.take 18 = m.header ++ [] := by
-    rw [Member.bytes, List.take_append, Member.header_length,
-      List.take_of_length_le (by rw [Member.header_length]; omega)]
-    simp
-  have h1 : ¬ m.size = 18 := by simp [Member.size]; omega
-  have h2 : ¬ m.size < 18 := by simp [Member.size]; omega
-  have hd : (m.header ++ ([] : Bytes)).drop 18 = [] := by
-    rw [List.drop_left' (Member.header_length m)]
-  have hl : ¬ (([] : Bytes).length ≥ m.size - 18) := by simp [Member.size]; omega
+    readAll .unrepaired c (m.bytes.take m.header.length) = ([], .eof) := by
+  have hb := Member.body_length hm.toFramedOk
+  obtain ⟨hd, hr, hs⟩ := hm.hdrOk.reads []
+  have e : m.bytes.take m.header.length = m.header ++ [] := by
+    rw [Member.bytes, List.take_left]; simp
+  have h1 : ¬ m.size = m.header.length := by simp [Member.size]; omega
+  have h2 : ¬ m.size < m.header.length := by simp [Member.size]; omega
+  have hdrop : (m.header ++ ([] : Bytes)).drop m.header.length = [] := List.drop_left
+  have hl : ¬ (([] : Bytes).length ≥ m.size - m.header.length) := by simp [Member.size]; omega
   apply readAll_of_error
-  rw [readBlock, readMember, e, readHeader_member]
-  simp only [expectedMemberSize_member, Member.bsize_eq hm, h1, h2, if_false, hd, hl]
+  rw [readBlock, readMember, e, hr]
+  simp only [hs, h1, h2, if_false, hdrop, hl]
   simp [Quirks.unrepaired]
 
 /-- Defect C10-2 (§6 #32): on the unchanged tree a member header whose BSIZE field is 17 (member size
@@ -299,6 +378,47 @@ theorem unrepaired_bam_clean_eof_inside_record (r : Rec) (hr : r.WellFormed) :
     simp [bamNext, Flat.readFull, h4, l1, t1, d1, hr.preVal, n0, Nat.not_le.mpr hs,
       Quirks.unrepaired, Quirks.repaired]
 
+/-- Defect C10-4 (audit H-1): a member that is framed and whose trailer verifies but whose payload is
+65537 bytes — one more than a block holds.  The unchanged tree accepts the block with the first 65536
+bytes and NO error (the 65537th byte arrives together with io.EOF in the one-byte probe of
+`readToEOF`, whose count was ignored): data that is not what was verified.  The repaired reader
+reports io.ErrShortBuffer. -/
+theorem unrepaired_probe_byte_dropped (c : Codec) (m : Member) (hm : m.FramedOk c)
+    (hlen : m.payload.length = MaxBlockSize + 1) (t : Bytes) :
+    readBlock .unrepaired c (m.bytes ++ t) = .ok (m.payload.take MaxBlockSize, t) ∧
+    readBlock .repaired c (m.bytes ++ t) = .error .shortBuffer := by
+  have hne : m.payload.isEmpty = false := by
+    cases hp : m.payload with
+    | nil => rw [hp] at hlen; simp [MaxBlockSize] at hlen
+    | cons _ _ => rfl
+  have hgt : ¬ m.payload.length ≤ MaxBlockSize := by omega
+  obtain ⟨hd, hr⟩ := readMember_member .unrepaired c hm t
+  obtain ⟨hd', hr'⟩ := readMember_member .repaired c hm t
+  constructor
+  · rw [readBlock, hr]
+    have : ¬ MaxBlockSize + 1 ≤ MaxBlockSize := by omega
+    simp [readToEOF, gzBody_member c hm, hlen, hne, Quirks.unrepaired, this]
+  · rw [readBlock, hr']
+    simp [readToEOF, gzBody_member c hm, hgt, Quirks.repaired]
+
+/-- …so `data_only_after_verification` is false of the unchanged tree: it returns a block whose content
+is not what the gzip reader verified (it is one byte short of it). -/
+theorem unrepaired_returns_unverified_data (c : Codec) (m : Member) (hm : m.FramedOk c)
+    (hlen : m.payload.length = MaxBlockSize + 1) :
+    (readAll .unrepaired c m.bytes).1 = m.payload.take MaxBlockSize ∧
+    (readAll .unrepaired c m.bytes).2 = .eof ∧ (readAll .unrepaired c m.bytes).1 ≠ m.payload := by
+  have h1 := (unrepaired_probe_byte_dropped c m hm hlen []).1
+  simp only [List.append_nil] at h1
+  have hr : readAll .unrepaired c m.bytes = (m.payload.take MaxBlockSize ++ [], .eof) := by
+    rw [readAll_eq, h1]
+    simp only
+    rw [readAll_nil]
+  rw [hr]
+  refine ⟨by simp, rfl, ?_⟩
+  intro hc
+  have := congrArg List.length hc
+  simp [List.length_take, hlen] at this
+
 /-! ## Non-vacuity: the hypotheses are satisfiable by non-trivial values -/
 
 /-- a toy codec: `03 00` is the empty deflate stream (as in the real EOF marker), `01 00 00 ff ff` the
@@ -309,17 +429,20 @@ def toyCodec : Codec where
     match buf with
     | 3 :: 0 :: _ => .ok [] 2
     | 1 :: 0 :: 0 :: 0xff :: 0xff :: _ => .ok [] 5
-    | n :: t => if t.length ≥ n.toNat then .ok (t.take n.toNat) (n.toNat + 1) else .fail 2
-    | [] => .fail 2
+    | n :: t => if t.length ≥ n.toNat then .ok (t.take n.toNat) (n.toNat + 1) else .fail 2 0
+    | [] => .fail 2 0
   crc32 := fun p => p.foldl (fun a b => (a + b.toNat) % 4294967296) 0
 
-def toyData : Member := ⟨0, 0, 0, 0, 0, 0xff, [3, 7, 8, 9], [24, 0, 0, 0], [3, 0, 0, 0], [7, 8, 9]⟩
-def toyEmpty : Member := ⟨0, 0, 0, 0, 0, 0xff, [1, 0, 0, 0xff, 0xff], [0, 0, 0, 0], [0, 0, 0, 0], []⟩
-def toyMarker : Member := ⟨0, 0, 0, 0, 0, 0xff, [3, 0], [0, 0, 0, 0], [0, 0, 0, 0], []⟩
+def toyData : Member := ⟨canonHeader 0 0 0 0 0 0xff 30, [3, 7, 8, 9], [24, 0, 0, 0], [3, 0, 0, 0], [7, 8, 9]⟩
+def toyEmpty : Member := ⟨canonHeader 0 0 0 0 0 0xff 31, [1, 0, 0, 0xff, 0xff], [0, 0, 0, 0], [0, 0, 0, 0], []⟩
+def toyMarker : Member := ⟨canonHeader 0 0 0 0 0 0xff 28, [3, 0], [0, 0, 0, 0], [0, 0, 0, 0], []⟩
 
-example : toyData.WellFramed toyCodec := by constructor <;> decide
-example : toyEmpty.WellFramed toyCodec := by constructor <;> decide
-example : toyMarker.WellFramed toyCodec := by constructor <;> decide
+def toyData_wf : toyData.WellFramed toyCodec :=
+  ⟨⟨canonHeader_ok _ _ _ _ _ _ _ (by decide) (by decide), by decide, by decide, by decide, by decide, by decide⟩, by decide⟩
+def toyEmpty_wf : toyEmpty.WellFramed toyCodec :=
+  ⟨⟨canonHeader_ok _ _ _ _ _ _ _ (by decide) (by decide), by decide, by decide, by decide, by decide, by decide⟩, by decide⟩
+def toyMarker_wf : toyMarker.WellFramed toyCodec :=
+  ⟨⟨canonHeader_ok _ _ _ _ _ _ _ (by decide) (by decide), by decide, by decide, by decide, by decide, by decide⟩, by decide⟩
 /-- the marker member is byte for byte the BGZF EOF marker -/
 example : toyMarker.bytes = magicBlock := by decide
 
@@ -331,7 +454,10 @@ example : (∀ m ∈ [toyData, toyEmpty, toyMarker], m.WellFramed toyCodec) ∧
   refine ⟨?_, ?_, by decide⟩
   · intro m hm
     simp only [List.mem_cons, List.not_mem_nil, or_false] at hm
-    rcases hm with rfl | rfl | rfl <;> constructor <;> decide
+    rcases hm with rfl | rfl | rfl
+    · exact toyData_wf
+    · exact toyEmpty_wf
+    · exact toyMarker_wf
   · intro m hm
     simp only [List.dropLast, List.mem_cons, List.not_mem_nil, or_false] at hm
     rcases hm with rfl | rfl <;> decide
@@ -349,6 +475,41 @@ example : HdrOk ⟨fun _ => true, fun _ => true⟩ (bamMagic ++ [3, 0, 0, 0] ++ 
         ∨ n = 12 ∨ n = 13 ∨ n = 14 := by omega
     rcases this with rfl | rfl | rfl | rfl | rfl | rfl | rfl | rfl | rfl | rfl | rfl | rfl | rfl | rfl | rfl <;>
       simp [bamHeader, Flat.readFull, Flat.read, bamMagic, leNat]
+
+/-- a codec that satisfies `PrefixDetermined` (a length byte, then that many literal bytes) and under
+which the toy data member is framed: the hypotheses of the BSIZE/trailer theorems are satisfiable -/
+def lenCodec : Codec where
+  inflate := fun buf =>
+    match buf with
+    | n :: t => if t.length ≥ n.toNat then .ok (t.take n.toNat) (n.toNat + 1) else .fail 2 0
+    | [] => .fail 2 0
+  crc32 := toyCodec.crc32
+
+example : PrefixDetermined lenCodec := by
+  intro a b p u ha hua hub htk
+  cases a with
+  | nil => simp [lenCodec] at ha
+  | cons n t =>
+    simp only [lenCodec] at ha ⊢
+    split at ha
+    · rename_i hlen
+      injection ha with hp hu
+      subst hu
+      cases b with
+      | nil => simp at hub
+      | cons n' t' =>
+        simp only [List.take_succ_cons, List.cons.injEq] at htk
+        obtain ⟨hn, ht⟩ := htk
+        subst hn
+        have hl' : t'.length ≥ n.toNat := by simpa using hub
+        simp only [hl', if_true, ← hp, ht]
+    · simp at ha
+
+example : toyData.FramedOk lenCodec :=
+  ⟨canonHeader_ok _ _ _ _ _ _ _ (by decide) (by decide), by decide, by decide, by decide, by decide, by decide⟩
+
+/-- the toy data member has the default header -/
+example : Canon toyData 0 0 0 0 0 0xff := ⟨rfl, by decide⟩
 
 /-- a header with a text and one reference entry ("c1\0", length 1000) is well-formed -/
 example : (⟨[3, 0, 0, 0], [0x40, 0x43, 0x4f], [1, 0, 0, 0], [⟨[3, 0, 0, 0], [0x63, 0x31, 0], [0xe8, 3, 0, 0]⟩]⟩ : Hdr).WellFormed
